@@ -87,7 +87,10 @@ def compare(chk, model, hscan, items, kind):
                         break
             if bad:
                 k2 = "missed" if "missed" in bad else "extra" if "extra" in bad else "length"
-                chk.violation("%s:%s" % (kind, k2), "%s on a %d-byte buffer: %s" % (decl[:160], len(b), bad), replay)
+                key = "%s:%s" % (kind, k2)
+                if k2 == "missed" and "extra" not in bad and meta.get("known_missed_key"):
+                    key = meta["known_missed_key"]
+                chk.violation(key, "%s on a %d-byte buffer: %s" % (decl[:160], len(b), bad), replay)
             else:
                 agree += 1
                 if sp:
